@@ -2,7 +2,6 @@ package frame
 
 import (
 	"bufio"
-	"bytes"
 	"encoding/base64"
 	"fmt"
 	"math/rand/v2"
@@ -10,7 +9,6 @@ import (
 	"strings"
 
 	"github.com/bluenviron/gortsplib/v5/pkg/base"
-	"github.com/bluenviron/gortsplib/v5/pkg/conn"
 
 	"verifharness/corr"
 )
@@ -34,6 +32,9 @@ var reqPrefixes = []string{"AN", "DE", "GE", "OP", "PA", "PL", "RE", "SE", "TE"}
 
 var keyPool = []string{"CSeq", "Session", "Transport", "Content-Type", "Content-Base", "Range", "RTP-Info", "WWW-Authenticate",
 	"Public", "User-Agent", "Require", "KeyMgmt", "Blocksize", "Accept", "Authorization", "Server", "Date", "X-Custom-Header", "A", "Z-9"}
+
+// ctx0 is the context of the running domain (set by Run) for the helpers that have no receiver.
+var ctx0 *corr.Ctx
 
 type gen struct {
 	c *corr.Ctx
@@ -80,7 +81,7 @@ func urlStable(s string) bool {
 	if len(s) > maxURL-1 || strings.ContainsAny(s, " ") || s == "" {
 		return false
 	}
-	u, err := base.ParseURL(s)
+	u, err := safeParseURL(ctx0, s)
 	return err == nil && u.String() == s && u.CloneWithoutCredentials().String() == s
 }
 
@@ -128,7 +129,10 @@ func normKey(k string) (string, bool) {
 		return "", false
 	}
 	var res base.Response
-	err := res.Unmarshal(bufio.NewReader(strings.NewReader("RTSP/1.0 200 OK\r\n" + k + ": 0\r\n\r\n")))
+	text := "RTSP/1.0 200 OK\r\n" + k + ": 0\r\n\r\n"
+	err := fmt.Errorf("panic")
+	catch(ctx0, &StreamCase{Name: "norm-key", Carrier: "direct", Stream: hexs([]byte(text)), Parts: [][]int{{}}}, "Response.Unmarshal",
+		func() { err = res.Unmarshal(bufio.NewReader(strings.NewReader(text))) })
 	if err != nil || len(res.Header) != 1 {
 		return "", false
 	}
@@ -253,7 +257,7 @@ func (g *gen) body() []byte {
 func (g *gen) request() *base.Request {
 	req := &base.Request{Method: base.Method(g.method()), Header: g.header(), Body: g.body()}
 	if u := g.url(); u != "*" {
-		req.URL, _ = base.ParseURL(u)
+		req.URL, _ = safeParseURL(g.c, u)
 	}
 	if entries(req.Header) >= maxEntries {
 		req.Body = nil // no room for Content-Length
@@ -375,38 +379,6 @@ func wellFormed(what any) error {
 		}
 	}
 	return nil
-}
-
-// writeAll serialises the elements back-to-back with the real conn.Conn writers and returns the
-// stream, the write boundaries and the canonical text of what was written.
-func writeAll(elems []any) (stream []byte, bounds []int, expect []string) {
-	var buf bytes.Buffer
-	cn := conn.NewConn(nil, &buf)
-	for _, e := range elems {
-		switch x := e.(type) {
-		case *base.Request:
-			if err := cn.WriteRequest(x); err != nil {
-				panic(err)
-			}
-			expect = append(expect, fmtElem(x)) // Marshal has put Content-Length into the header map
-		case *base.Response:
-			if err := cn.WriteResponse(x); err != nil {
-				panic(err)
-			}
-			y := *x
-			if y.StatusMessage == "" {
-				y.StatusMessage = base.StatusMessages[y.StatusCode]
-			}
-			expect = append(expect, fmtElem(&y))
-		case *base.InterleavedFrame:
-			if err := cn.WriteInterleavedFrame(x, make([]byte, 4+len(x.Payload))); err != nil {
-				panic(err)
-			}
-			expect = append(expect, fmtElem(x))
-		}
-		bounds = append(bounds, buf.Len())
-	}
-	return buf.Bytes(), bounds, expect
 }
 
 func (g *gen) sequence(maxLen int) []any {
